@@ -26,7 +26,7 @@ LIST_BUCKET = {  # (lo, hi, required witness) per _infer_dtype bucket
 LIST_NP = {"list_i8": "i1", "list_u8": "u1", "list_i16": "<i2", "list_u16": "<u2", "list_i32": "<i4", "list_u32": "<u4",
            "list_i64": "<i8", "list_u64": "<u8"}
 # microsecond values that the pinned float conversion gets wrong (D6) come first
-US = [4146, 999999, 1, 0, 500000, 123457, 8293, 16585, 999998, 250001]
+US = [4146, 493, 999999, 986, 1, 0, 1972, 500000, 123457, 8293, 16585, 999998, 250001, 1985, 3944, 7829]
 STRS = ["a", "bc", "", "x y", "it's", "/p"]
 MSTRS = ["é中", "\U0001F600x", "ß", "", "'é'/"]
 
